@@ -200,10 +200,63 @@ fn main() {
     // randoms with a protocol-defined meaning (HelloRetryRequest value, downgrade sentinels) are still just randoms here
     let magic: Vec<W> = cat::magic_hellos().into_iter().filter(|w| w.buf[0] != 2 || w.buf.len() > 4 && w.lens.iter().all(|l| l.label != "dtls_length")).collect();
     sink.merge(struct_sweep(&run, &[&MSG_HANDSHAKE], &magic.iter().filter(|w| w.lens.first().map_or(false, |l| l.label == "hs_len")).cloned().collect::<Vec<_>>(), 1, &sfx, 64, &no_extra));
-    for style in [1u8, 3, 4] {
+    for style in [1u8, 3, 4, 6, 7, 8] {
         use vcommon::en::with_fill_style as wfs;
         sink.merge(struct_sweep(&run, &[&MSG_HANDSHAKE], &wfs(style, || cat::handshake_messages(false)), 0, &sfx, 64, &no_extra));
     }
+
+    // hellos whose extension block is a real extension list (the block is opaque to the hello parsers and must stay so)
+    let with_ext: Vec<W> = cat::hellos_with_extension_lists().into_iter().filter(|w| w.lens.first().map_or(false, |l| l.label == "hs_len")).collect();
+    sink.merge(struct_sweep(&run, &[&MSG_HANDSHAKE], &with_ext, 0, &sfx, 64, &no_extra));
+    // every size of each variable-length field of a message (all enclosing lengths consistent)
+    for ty in [12u8, 14, 15, 16, 20] {
+        let b = move |n: usize| cat::hs(ty, |w| {
+            w.fill(n, ty);
+        });
+        sink.merge(size_sweep(&run, &[&MSG_HANDSHAKE], 70000, &b, &no_extra));
+    }
+    let b_nst = |n: usize| cat::hs(4, |w| {
+        w.u32(7);
+        w.fill(n, 0x11);
+    });
+    sink.merge(size_sweep(&run, &[&MSG_HANDSHAKE], 66000, &b_nst, &no_extra));
+    let b_cert = |n: usize| cat::hs(11, |w| cat::certificate_body(w, &[n, 1]));
+    sink.merge(size_sweep(&run, &[&MSG_HANDSHAKE], 70000, &b_cert, &no_extra));
+    let b_cst = |n: usize| cat::hs(22, |w| {
+        w.u8(1);
+        w.block(3, "status_blob_len", |w| {
+            w.fill(n, 0x77);
+        });
+    });
+    sink.merge(size_sweep(&run, &[&MSG_HANDSHAKE], 70000, &b_cst, &no_extra));
+    let b_ciphers = |n: usize| cat::hs(1, |w| cat::client_hello_body(w, 0x0303, 0, n, 1, cat::ExtBlock::Empty, None));
+    sink.merge(size_sweep(&run, &[&MSG_HANDSHAKE], 32767, &b_ciphers, &no_extra));
+    let b_comps = |n: usize| cat::hs(1, |w| cat::client_hello_body(w, 0x0303, 32, 1, n, cat::ExtBlock::Absent, None));
+    sink.merge(size_sweep(&run, &[&MSG_HANDSHAKE], 255, &b_comps, &no_extra));
+    for ty in [1u8, 2, 6] {
+        let b = move |n: usize| match ty {
+            1 => cat::hs(1, |w| cat::client_hello_body(w, 0x0303, 0, 1, 1, cat::ExtBlock::Bytes(n), None)),
+            2 => cat::hs(2, |w| cat::server_hello_body(w, 0x0303, 32, cat::ExtBlock::Bytes(n))),
+            _ => cat::hs(6, |w| {
+                w.u16(0x0304).u16(0x1301);
+                w.block(2, "ext_len", |w| {
+                    w.fill(n, 0xe0);
+                });
+            }),
+        };
+        sink.merge(size_sweep(&run, &[&MSG_HANDSHAKE], 65535, &b, &no_extra));
+    }
+    let b_dn = |n: usize| cat::hs(13, |w| cat::certificate_request_body(w, 1, Some(1), &[n]));
+    sink.merge(size_sweep(&run, &[&MSG_HANDSHAKE], 65000, &b_dn, &no_extra));
+    let b_np = |n: usize| cat::hs(67, |w| {
+        w.block(1, "proto_len", |w| {
+            w.fill(n, b'h');
+        });
+        w.block(1, "padding_len", |w| {
+            w.fill(255 - n, 0);
+        });
+    });
+    sink.merge(size_sweep(&run, &[&MSG_HANDSHAKE], 255, &b_np, &no_extra));
 
     // (2) body-level: the same catalogue without the 4-byte header through each pub body parser
     let mut by_type: std::collections::BTreeMap<u8, Vec<W>> = std::collections::BTreeMap::new();
@@ -356,7 +409,7 @@ fn main() {
     cov.insert("one_dimensional_sweep_cases".into(), json!(nsweeps));
     cov.insert("entry_points".into(), json!(all_targets().iter().map(|t| t.name).collect::<Vec<_>>()));
     cov.insert("rule".into(), json!(format!(
-        "struct: {} catalogue messages (17 variants over their boundary domains, 15 unknown types, all 256 type bytes, chains / DN lists / algorithm lists of 255..4000 elements) x every combination of <= {} deviations (each length field in {{0,1,true-1,true+1,max}}, every cut, 4 suffixes), at message level and - header stripped - through each of the 21 pub body parsers; complete sweeps of all 65536 versions / cipher ids, all 256 compression ids, session-id lengths, status types, key-update values, certificate types, bit patterns of the 32-bit lifetime; every string of length <= {} over a positional alphabet through parse_tls_message_handshake; hello frames with every tail of length <= {} over a 7-letter alphabet. Oracle: strict walker (Must / MustReject / Unspecified per DESIGN appendix D). Non-trivial: not cut inside the fixed header",
+        "struct: {} catalogue messages (17 variants over their boundary domains, 15 unknown types, all 256 type bytes, chains / DN lists / algorithm lists of 255..4000 elements) x every combination of <= {} deviations (each length field in {{0,1,true-1,true+1,max}}, every cut, 4 suffixes), at message level and - header stripped - through each of the 21 pub body parsers; every size of each variable-length field (opaque bodies and certificates to 70000, tickets, status blobs, DNs, extension blocks to 65535, 0..32767 cipher suites, 0..255 compressions; quick tier: the size set of sweep::sizes) with consistent enclosing lengths; complete sweeps of all 65536 versions / cipher ids, all 256 compression ids, session-id lengths, status types, key-update values, certificate types, bit patterns of the 32-bit lifetime; every string of length <= {} over a positional alphabet through parse_tls_message_handshake; hello frames with every tail of length <= {} over a 7-letter alphabet. Oracle: strict walker (Must / MustReject / Unspecified per DESIGN appendix D). Non-trivial: not cut inside the fixed header",
         nmsgs, d, n, tn)));
     let code = run.finish(
         &sink,
